@@ -44,6 +44,8 @@ func runC02(c *Ctx, r *Rec) {
 	checkEmptyOperand(c, r, "D1-empty-operand", c.info("collection"), ms)
 	checkResetCompleteness(c, r, "D1-reset-complete", set)
 	checkTypeLockPairing(c, r, "D1-lock-released", set)
+	checkNoDynamicEquality(c, r, "D1-no-dynamic-equality", fileFuncs(c, "collection", set))
+	checkUnsignedSizeMinus(c, r, "D1-unsigned-size-minus", fileFuncs(c, "collection", set))
 	// the search helper: the private method returning (int, bool)
 	var search *ast.FuncDecl
 	for _, name := range sortedKeys(ms) {
